@@ -9,6 +9,7 @@
 #include "FileHDF5.hpp"
 
 #include <nix/util/util.hpp>
+#include <nix/verif_hooks.hpp>
 #include "BlockHDF5.hpp"
 #include "SectionHDF5.hpp"
 #include "h5x/H5Exception.hpp"
@@ -282,6 +283,7 @@ string FileHDF5::id() const {
 
 
 void FileHDF5::forceId() {
+    NIX_VERIF_EMIT("id.force", location());
     root.setAttr("id", util::createId());
     setUpdatedAt();
 }
@@ -312,6 +314,8 @@ void FileHDF5::close() {
             throw H5Exception("FileHDF5::close(): Could not get objs");
         }
     }
+
+    NIX_VERIF_EMIT("close.leftover", std::to_string(objs.size()));
 
     for (auto obj : objs) {
         int ref_count = H5Iget_ref(obj);
